@@ -48,9 +48,26 @@ def _canon(v, depth, ids):
     return ["opaque", type(v).__name__] + ([id(v)] if ids else [])
 
 
+def instance_attrs(obj):
+    d = {}
+    for klass in type(obj).__mro__:
+        sl = klass.__dict__.get("__slots__", ())
+        if isinstance(sl, str):
+            sl = (sl,)
+        for name in sl:
+            if name in ("__dict__", "__weakref__"):
+                continue
+            try:
+                d[name] = getattr(obj, name)
+            except AttributeError:
+                pass
+    d.update(getattr(obj, "__dict__", {}))
+    return d
+
+
 def model_state(model, ids=True):
     """Canonical snapshot of the model instance: attr -> canonical value."""
-    return {k: _canon(v, 0, ids) for k, v in vars(model).items()}
+    return {k: _canon(v, 0, ids) for k, v in instance_attrs(model).items()}
 
 
 def diff_state(a, b):
@@ -98,8 +115,11 @@ def mk_rating(model, mu, sigma, name, stats=None):
         # rating() does not hold the given values (that is C20's business): assign directly
         if stats is not None:
             stats["ref_build_mismatch"] = stats.get("ref_build_mismatch", 0) + 1
-        r.mu = mu
-        r.sigma = sigma
+        try:
+            r.mu = mu
+            r.sigma = sigma
+        except AttributeError:
+            pass
     return r
 
 
